@@ -91,6 +91,12 @@ def c04(tier, seed):
                       seed=seed % 7, timeout_ms=60000, unwind=64, max_paths=8000 if q else 100000))
         if not q:
             jobs.append(J(G, "VerifE01Check", model=m, maxcands=12, ctx=3, seed=(seed + 2) % 7, timeout_ms=60000, unwind=64, max_paths=100000))
+    # the weighted-graph engine keeps contextual tuples in per-request buckets of its own: the first object of every type
+    # is `type:$1` ('$' sorts before '*'); request 9 = document:$1#viewer@user:2, granted by a contextual wildcard only
+    jobs.append(J(V2, "VerifE03WeightedCheck", model="wildcard", maxcands=12, invalid=0, subjects="all", ctx=3, lowid=1, req=9, timeout_ms=60000, unwind=64, max_paths=8000))
+    if not q:
+        for m in ["wildcard", "userset", "exclusion"]:
+            jobs.append(J(V2, "VerifE03WeightedCheck", model=m, maxcands=12, invalid=0, subjects="all", ctx=3, lowid=1, timeout_ms=60000, unwind=64, max_paths=100000, job_timeout_s=3000))
     # the contextual tuples are also stored (a contextual tuple may repeat a stored one): same answer
     jobs.append(J(G, "VerifE01Check", model="userset", maxcands=10, ctx=3, ctxdup=1, invalid=0, subjects="min", timeout_ms=60000, unwind=64, max_paths=8000 if q else 100000))
     # object types one of whose names is a prefix of the other (`team`, `team2`: ordering by type and ordering by the
